@@ -11,6 +11,37 @@ type Path struct {
 	Blocks []*ssa.BasicBlock
 }
 
+// resolve: a φ denotes, on this path, what came in over the edge the path took into the φ's block (the last
+// time it entered it); anything else denotes itself.
+func (p *Path) resolve(v ssa.Value) ssa.Value {
+	for n := 0; n < 8 && p != nil; n++ {
+		phi, ok := v.(*ssa.Phi)
+		if !ok {
+			return v
+		}
+		at := -1
+		for i := 1; i < len(p.Blocks); i++ {
+			if p.Blocks[i] == phi.Block() {
+				at = i
+			}
+		}
+		if at < 0 {
+			return v
+		}
+		found := false
+		for k, pred := range phi.Block().Preds {
+			if pred == p.Blocks[at-1] {
+				v, found = phi.Edges[k], true
+				break
+			}
+		}
+		if !found {
+			return v
+		}
+	}
+	return v
+}
+
 // edgeTaken reports whether the path goes from a to b consecutively.
 func (p *Path) edgeTaken(a, b *ssa.BasicBlock) bool {
 	for i := 0; i+1 < len(p.Blocks); i++ {
